@@ -4,7 +4,25 @@ from harness import fam_hash, fam_hash2
 TRUSTED = fam_hash.TRUSTED
 ASSUME = ["keys are unique (the constructor's precondition) and |key| <= 2**62"]
 RULE = fam_hash2.RULE2 + " || " + "Counter histories; " + fam_hash.RULE
+def fast_index_stage(R, tier, rng):
+    """RaggedView._get_flat_indices_fast (the gather used by Counter.count after the empty buckets are removed) against Proofs/FastIndices.v"""
+    import numpy as np
+    from npstructures.raggedshape import RaggedView
+    from vlib import show, parse2, oracle, guarded
+    cases = []
+    for _ in range(2000 if tier == 'thorough' else 400):
+        k = rng.randint(1, 6); lens = [rng.randint(1, 4) for _ in range(k)]; starts = [rng.randint(0, 30) for _ in range(k)]
+        def impl():
+            v = RaggedView(np.array(starts), np.array(lens)); v.empty_removed = True
+            idx, shape = v.get_flat_indices(); return [int(x) for x in idx]
+        cases.append(('fastidx ' + show(starts) + ' ' + show(lens), guarded(impl), k >= 2))
+    out = oracle([c[0] for c in cases])
+    for (line, impl, nt), o in zip(cases, out):
+        m, s = parse2(o); R.record(line, impl, m, s, nt, 'fast-indices', py='RaggedView(starts, lengths) with empty_removed: get_flat_indices()  ' + line)
+
+
 def run(R, tier, rng):
+    fast_index_stage(R, tier, rng)
     fam_hash2.run_family2(R, tier, rng, True)
     fam_hash.run_family(R, tier, rng, counter=True)
 
